@@ -106,7 +106,7 @@ Definition h_put (e : env) (s : state) (owner : addr) (basket_denom : bytes) (cs
   '(s, received) <- lfold (put_one e owner id k (ct_precision cty)) cs (s, 0) ;;
   let coins := [{| c_denom := bk_denom k; c_amount := received |}] in
   s <- mint_coins addr_basket coins s ;;
-  s <- send_coins addr_basket owner coins s ;;
+  s <- send_coins_from_module_to_account addr_basket owner coins s ;;
   ret s (RAmountReceived received).
 
 (* ------------------------------------------------------------------ *)
